@@ -44,6 +44,7 @@ def eval : Nat → Env → Expr → R Expr
           pure ((p.1, p.2.1, v) : Part))
         let parts := restruct parts
         match findKey 0 size parts with
+        | some (.cst v s _) => return .cst v s sf
         | some p => return p
         | none => return .comp size sf parts
     | .tst t l r _ _ => do
